@@ -1,5 +1,7 @@
 import TrionModel.Lemmas.ShowAsm
 import TrionModel.Lemmas.ShowText
+import TrionModel.Lemmas.ShowDec
+import TrionModel.Model.Asm
 /-!
 # C19 — the disassembly text of an instruction assembles back to that instruction
 
@@ -10,10 +12,12 @@ Models: `Show.text` (= `impl Display for InstrAt`, byte for byte), `Front.build`
 
 Hypotheses, stated in `Spec/Front.lean`:
 * `Printable i a` — every field fits its Rust type, PC-relative offsets are encodable, and the PC-relative
-  target lies inside the 32-bit address space (the property's side condition). All values returned by
-  `Instruction::decode` satisfy the first two (checked on every decoded pattern by the harness).
+  target lies inside the 32-bit address space (the property's side condition `targetInRange`). All values
+  returned by the decoder model satisfy the first two: `decoded_printable`.
 * `EvalOK eval i a` — the label the text mentions is defined as the address it names; literals and register
   names evaluate to themselves; `[R + x]` evaluates to an address operand read the same way by `addr_off`.
+  Discharged for the concrete evaluator (`Simp.evaluateT` over a table defining the label): `show_assembles_eval`.
+* `show_roundtrip` composes decoder → text parts → evaluator → front end → encoder → decoder on the models.
 -/
 namespace Trion.Show
 open Trion.Front
@@ -62,6 +66,69 @@ theorem label_is_target (i : Instr) (a : Nat) (t : Nat) (h : targetOf i a = some
         obtain ⟨h0, h1, h4, ht⟩ := hp
         exact wrapAdd_alPc _ _ (by omega) ht
       · cases h
+
+/-- C19.e  **Every decoded instruction is printable.** Whatever bytes the decoder accepts, the instruction it
+returns satisfies the hypothesis of `show_assembles` at every address at which its PC-relative target lies
+inside the address space (`targetInRange`, the property's own side condition; trivially true for the
+instructions without a label). -/
+theorem decoded_printable (bs : List Nat) (hb : Codec.IsBytes bs) (n : Nat) (i : Instr)
+    (h : Codec.decode bs = .ok (n, i)) (a : Nat) (ht : targetInRange i a) : Printable i a := by
+  obtain ⟨wf, hws, he⟩ := Codec.decode_wf bs hb n i h
+  exact printable_of_encode i a hws he wf ht
+
+/-- C19.f  The disassembly text of every decoded instruction assembles back to it — hypotheses only about the
+address/target, as in the property text (and the abstract evaluator assumption, discharged below). -/
+theorem show_assembles_decoded (bs : List Nat) (hb : Codec.IsBytes bs) (n : Nat) (i : Instr)
+    (h : Codec.decode bs = .ok (n, i)) (a : Nat) (ht : targetInRange i a)
+    (eval : Arg → EvalOut) (loc : Bool) (he : EvalOK eval i a) :
+    build a (parts i a).1 (parts i a).2 eval loc = .completed i :=
+  show_assembles i a eval loc (decoded_printable bs hb n i h a ht) he
+
+/-- C19.g  **With the concrete evaluator.** `eval` is `evaluate` (model `Simp.evaluateT`, registers recognised
+by `Arm6M::is_register`) over a symbol table `lk` in which the label the text mentions is defined as the
+address it names. Then the printed statement assembles to `i` — no abstract `EvalOK`: literals and register
+names evaluate to themselves, the label to its address, `[R + x]` to an address operand `addr_off` reads the
+same way (`[R + 0]` becomes `[R]`). `MemNonneg`: the evaluator rewrites `[R + -4]` to `[R - 4]`, which
+`addr_off` refuses; no encodable instruction has a negative offset there. -/
+theorem show_assembles_eval (i : Instr) (a : Nat) (lk : Bytes → Simp.Lookup) (eval : Arg → EvalOut)
+    (hE : EvalIsSimp eval lk) (loc : Bool) (hp : Printable i a) (hm : MemNonneg i)
+    (hl : ∀ t, targetOf i a = some t → lk (label t) = .found (t : Int)) :
+    build a (parts i a).1 (parts i a).2 eval loc = .completed i :=
+  show_assembles i a eval loc hp (evalOK_simp eval lk hE i a hl hm)
+
+/-- the evaluator of the assembler model (`Asm.frontEval`, what `Asm` hands to `Front.assemble`) and the plain
+`simpEval` are such evaluators -/
+theorem frontEval_isSimp (t : Asm.Table) : EvalIsSimp (Asm.frontEval t) (fun n => t.get n) := by
+  intro x ch a' h
+  simp [Asm.frontEval, Asm.evalIn, h]
+
+theorem simpEval_isSimp (lk : Bytes → Simp.Lookup) : EvalIsSimp (simpEval lk) lk := evalIsSimp_simpEval lk
+
+/-- C19.h  **End to end on the models.** Bytes that decode to `i` (consuming `n` of them) → the text printed for
+`i` at `a` → the concrete evaluator → `Front.build` gives `i` again → `Codec.encode` accepts it and emits `n`
+bytes that decode to `i`: the canonical encoding (equal to the input up to alias encodings, C03 `dec_canon`). -/
+theorem show_roundtrip (bs : List Nat) (hb : Codec.IsBytes bs) (n : Nat) (i : Instr)
+    (h : Codec.decode bs = .ok (n, i)) (a : Nat) (ht : targetInRange i a)
+    (lk : Bytes → Simp.Lookup) (eval : Arg → EvalOut) (hE : EvalIsSimp eval lk) (loc : Bool)
+    (hl : ∀ t, targetOf i a = some t → lk (label t) = .found (t : Int)) :
+    ∃ i' hws, build a (parts i a).1 (parts i a).2 eval loc = .completed i' ∧ i' = i ∧
+      Codec.encode i' = .ok hws ∧ 2 * hws.length = n ∧ Codec.decode (Codec.toBytes hws) = .ok (n, i) := by
+  obtain ⟨wf, hws0, he0⟩ := Codec.decode_wf bs hb n i h
+  obtain ⟨hws, he, hl2, hd⟩ := Codec.dec_canon bs hb n i h
+  exact ⟨i, hws, show_assembles_eval i a lk eval hE loc (printable_of_encode i a hws0 he0 wf ht)
+    (memNonneg_of_encode i hws0 he0) hl, rfl, he, hl2, hd⟩
+
+/-- non-vacuity of the decoded / concrete-evaluator forms: `LDR R1, [PC + 8]` at 2 (label l_0000000C), and a
+table defining that label -/
+example : Codec.decode [0x02, 0x49] = .ok (2, .ldr 1 15 (.imm 8)) ∧ targetInRange (.ldr 1 15 (.imm 8)) 2 ∧
+    targetOf (.ldr 1 15 (.imm 8)) 2 = some 12 ∧
+    Asm.Table.get [(label 12, some 12)] (label 12) = .found 12 := by
+  refine ⟨rfl, ?_, rfl, by decide⟩
+  simp [targetInRange, Front.alPc]
+example : MemNonneg (.ldrb 0 1 (.imm 5)) ∧ ¬ MemNonneg (.ldrb 0 1 (.imm (-5))) := by
+  constructor
+  · intro ad v h; simp [memOf] at h; omega
+  · intro h; have := h 1 (-5) rfl; omega
 
 /-- non-vacuity: a backward conditional branch at 0x20000000 and a PC-relative load are `Printable` -/
 example : Printable (.b 0 (-4)) 0x20000000 ∧ Printable (.ldr 1 15 (.imm 8)) 2 ∧ Printable (.push 0x40F0) 0 ∧
